@@ -1,6 +1,7 @@
 package bip32path
 
 import (
+	"strings"
 	"testing"
 )
 
@@ -101,6 +102,26 @@ func TestVerifDriver(t *testing.T) {
 			c := string([]byte{byte(b)})
 			for _, t := range []string{"m/44" + c, "m/44" + c + "/0", "44" + c, "44" + c + "/0'/7", c + "/1", "m" + c + "1", "m/4" + c + "4", "m/44'" + c, "m/44H" + c + "/1", c, "m/" + c, "0/" + c + "/0"} {
 				do("path.Parse", M{"s": vInts([]byte(t))})
+			}
+		}
+		// components beyond every machine word: values around 2^31, 2^32, 2^63, 2^64, 2^128 and powers of ten, also values
+		// that are small again modulo 2^32 / 2^64 (a hand-written digit loop wraps), plain / hardened, with leading zeros,
+		// at the first, a middle and the last position
+		{
+			big := []string{"2147483647", "2147483648", "2147483649", "4294967295", "4294967296", "4294967340", "6442450944",
+				"9223372036854775807", "9223372036854775808", "18446744073709551615", "18446744073709551616", "18446744073709551660",
+				"18446744075857035263", "18446744075857035264", "36893488147419103232", "36893488147419103276",
+				"10000000000", "99999999999", "10000000000000000000", "100000000000000000000",
+				"340282366920938463463374607431768211456", "340282366920938463463374607431768211500",
+				"115792089237316195423570985008687907853269984665640564039457584007913129639936", "1" + strings.Repeat("0", 400) + "7"}
+			for _, v := range big {
+				for _, z := range []string{"", "0", "000"} {
+					for _, m := range []string{"", "'", "H"} {
+						for _, t := range []string{"m/" + z + v + m, z + v + m + "/1", "m/44'/" + z + v + m + "/0", "m/0/" + z + v + m} {
+							do("path.Parse", M{"s": vInts([]byte(t))})
+						}
+					}
+				}
 			}
 		}
 		r := vRand(10)
